@@ -281,6 +281,30 @@ CLAIMED['C07'] = dict(
          'Known findings: caller-to-caller sharing of pipeline constants and cached cursor '
          'results. $sample/$out/$lookup/$facet and bulk_write are not generated here.')
 
+CLAIMED['C15'] = dict(
+    technique='Lean 4 theorems: bulk_write = fold of the single-operation step (unordered: all, '
+              'ordered: a prefix), counters are running sums, upserted ids carry the operation '
+              'index; tied to the code by history correspondence and a twin collection on which '
+              'the requests are issued one at a time',
+    text='Lean 4 theorems about the model of BulkOperationBuilder (MongoModel.bulkWrite) against '
+         'the single-operation step function stepColl: an empty bulk is refused; for every state, '
+         'clock and request list (InsertOne, UpdateOne, UpdateMany, ReplaceOne, DeleteOne, '
+         'DeleteMany, with and without upsert, validated like their single counterparts) an '
+         'unordered bulk in which every failure is a write error ends in exactly the state of '
+         'issuing the requests one at a time; an ordered bulk ends in the one-at-a-time state of a '
+         'prefix (the whole list when it succeeds) and its error reports exactly one write error, '
+         'at the position where it stopped; every successful request adds exactly its own '
+         'contribution to the counters and leaves the error list alone; every upserted _id is '
+         'reported under the index of its operation. Tie: histories with bulk_write calls (~25% '
+         'failing requests, ordered and unordered) are run on /repo and on the compiled model; on '
+         'python every bulk_write is replayed on a twin collection as individual calls and state, '
+         'counter sums, upserted indexes, failing index and code must agree; an empty bulk and a '
+         'second execute must raise InvalidOperation.',
+    note='"execute only once" is builder state outside the model (checked on python only). A '
+         'ReplaceOne whose replacement starts with $ is accepted by the bulk builder and rejected '
+         'by replace_one: excluded by Spec.plainRequest. Non-write errors abort an unordered bulk '
+         '(stated as hypothesis hw).')
+
 PENDING = {
     'C02': 'model (MongoModel/Update.lean) and correspondence exist; theorems not yet proved',
     'C03': 'in progress: pipeline model depends on the expression model (C04)',
